@@ -5,6 +5,7 @@ import QR.Proofs.History
 import QR.Proofs.SourceTieC18
 import QR.Proofs.Pinned
 import QR.Proofs.CapstoneE3
+import QR.Proofs.CapstoneE5
 /-
 C18 - out-of-range settings are rejected, in-range settings accepted (all integers), and nothing is produced under an
 out-of-range setting (invariant over operation sequences of any length).
@@ -480,6 +481,200 @@ example : ob_check_box_size (.int 0) = .error "ValueError" ∧ ob_check_border (
    (C18_source_capstone_check_methods 8).2.2.1.2 (by decide),
    fun h => absurd ((C18_source_capstone_check_methods 7).2.2.1.1 h) (by decide)⟩
 
+
+/-! #### operation sequences executed by the translated code (`QR.CapstoneE5.stepSrc` / `runSrc`) -/
+section CapstoneSeq
+open QR.CapstoneE5
+
+/-- **capstone, ANY sequence of operations executed by the TRANSLATED code** (`CapstoneE5.runSrc`, the fold of `stepSrc`:
+    `main.py:QRCode.add_data` = `ob_add_data`, `clear` = `ob_clear`, `make` = `CapstoneE3.makeSrc`, the property setters `version` /
+    `mask_pattern` / `border` = `ob_set_*` with the translated `_check_*`, `get_matrix` = `get_matrix_compile_test` + `make` +
+    `get_matrix_early` / `get_matrix_code`, `make_image` = `ob_make_image`, `print_ascii` / `print_tty` = their translated
+    implicit-compile tests + `make`, a compile by another object = `makeSrc`; `error_correction` / `box_size` are plain attribute
+    assignments; the only Model fallback is `.mutateModules`, the CALLER writing into `qr.modules`; partly translated chain:
+    `util.check_version` = `checkVersionOb`, the callees of `make` = the Model's `bestFitS`, `bestMaskS`, `makeImplS`) keeps the
+    settings in range and keeps the two cache invariants: the run ends on the object of a state `s` (unique:
+    `toOb_injective`) with `version ≤ 40`, mask `None` or `≤ 7`, and the invariants.
+    From `CapstoneE5.runSrc_sim_gen` (induction over the single-step bridges), `C18_run`.  Hypotheses of the `make_image` bridge kept
+    (`hk`, `CapstoneE5.EmbeddedOK`: no embedded image in `kwargs`, or level H throughout; `hf`: factory argument a subclass of `BaseImage`). -/
+theorem C18_source_capstone_run {F K : Type} (E : ImgEnv F K)
+    (hf : ∀ f, E.arg = some f → E.issub f = true) (fac : Option F) (ops : List Op) (g0 : Global) (hg : GInv g0)
+    (s0 : QRState) (hk : EmbeddedOK E s0 ops) :
+    ∃ g s outs, runSrc E (g0, toOb fac s0) ops = ((g, toOb fac s), outs) ∧ GInv g ∧ (SettingsOK s0 → SettingsOK s) ∧
+      (CacheInv s0 → CacheInv s) := by
+  have sim := runSrc_sim_gen E hf fac g0 hg s0 ops hk
+  exact ⟨_, _, _, sim, C18_run ops g0 hg s0⟩
+
+/-- **capstone (C18 itself), over ANY sequence of operations executed by the TRANSLATED code** (`runSrc`, as above) nothing is
+    handed out under an out-of-range setting: the `k`-th output, if it is a matrix (`get_matrix`), an image (`make_image`: the
+    call `im` of the image class and the draw calls `evs`) or a text (`print_ascii` / `print_tty`), was produced on an object
+    `toOb fac post` (the object right after the `k`-th operation) with `version ≤ 40`, mask `None` or `≤ 7`, a filled data cache,
+    `modules_count = 4 v + 17` for a real version `1 ≤ v ≤ 40`, and - for an image - `box_size > 0`; the matrix is that object's
+    matrix framed by the translated `get_matrix_early` / `get_matrix_code`; the image class was called with exactly
+    `(border, modules_count, box_size, qrcode_modules=modules, **kwargs)` of that object and drawn by the translated draw loop.
+    `1 ≤ version` under the condition of `C18_never` (`pre` = the object before the `k`-th operation).
+    From `CapstoneE5.runSrc_sim_gen`, `C18_never`, `SourceTieB.framedOpt_src`.  Hypotheses kept: the cache invariants `GInv`, `CacheInv`
+    and `SettingsOK` of the start state (every constructed object has them: `C18_constructed`), `hk`, `hf` of the `make_image`
+    bridge. -/
+theorem C18_source_capstone_never {F K : Type} (E : ImgEnv F K)
+    (hf : ∀ f, E.arg = some f → E.issub f = true) (fac : Option F) (ops : List Op) (g0 : Global) (hg : GInv g0)
+    (s0 : QRState) (hs : SettingsOK s0) (hc : CacheInv s0) (hk : EmbeddedOK E s0 ops) (k : Nat) (o : OutSrc F K)
+    (h : (runSrc E (g0, toOb fac s0) ops).2[k]? = some o) :
+    ∃ pre post : QRState, (runSrc E (g0, toOb fac s0) (ops.take k)).1.2 = toOb fac pre ∧
+      (runSrc E (g0, toOb fac s0) (ops.take (k + 1))).1.2 = toOb fac post ∧
+      (let produced := post.version ≤ 40 ∧ (∀ m, post.mask = some m → m ≤ 7) ∧ post.dataCache.isSome = true ∧
+        ∃ v, 1 ≤ v ∧ v ≤ 40 ∧ post.modulesCount = v * 4 + 17
+       let versionSet := pre.dataCache = none ∨ pre.version ≠ 0 → 1 ≤ post.version
+       match o with
+       | .matrix m => produced ∧ versionSet ∧
+           m = (if get_matrix_early post.border then post.modules.toLists
+                else get_matrix_code (some false) post.modules.toLists post.border)
+       | .image im evs => produced ∧ versionSet ∧ 0 < post.boxSize ∧
+           im.pos = [(post.border : Int), (post.modulesCount : Int), post.boxSize] ∧
+           im.kw = [("qrcode_modules", post.modules.toLists)] ∧ im.star = E.kwargs ∧
+           im.cls = chosenFactory E.Image E.PilImage E.PyPNGImage fac E.arg ∧
+           evs = ob_make_image_draw E.nd E.nc E.np (toOb fac post) im
+       | .text b m => produced ∧ versionSet ∧ (b = post.border ∨ b = 1) ∧ m = post.modules.toLists
+       | _ => True) := by
+  have sim := fun n => runSrc_sim_gen E hf fac g0 hg s0 (ops.take n) (hk.take n)
+  rw [runSrc_sim_gen E hf fac g0 hg s0 ops hk] at h
+  simp only [List.getElem?_map] at h
+  cases ho : (run (g0, s0) ops).2[k]? with
+  | none => rw [ho] at h; simp at h
+  | some o' =>
+    rw [ho] at h
+    simp only [Option.map_some, Option.some.injEq] at h
+    have hn := C18_never ops g0 hg s0 hs hc k o' ho
+    refine ⟨(run (g0, s0) (ops.take k)).1.2, (run (g0, s0) (ops.take (k + 1))).1.2, by rw [sim], by rw [sim], ?_⟩
+    subst h
+    cases o' with
+    | unit => trivial
+    | err e => trivial
+    | matrix m =>
+      obtain ⟨a, b, c⟩ := hn
+      exact ⟨a, b, by rw [c, QR.SourceTieB.framedOpt_src]⟩
+    | image b n bs m =>
+      obtain ⟨a1, a2, a3, a4, a5, a6, a7⟩ := hn
+      subst a4 a5 a6 a7
+      exact ⟨a1, a2, a3, rfl, rfl, rfl, rfl, draw_congr E.nd E.nc E.np _ _ _ rfl rfl⟩
+    | text b m => exact hn
+
+/-- **capstone, the same read off the ATTRIBUTES of the translated object** (no Model state in the conclusion): whenever the `k`-th
+    output of a sequence executed by the translated code (`runSrc`, as above) hands something out (`OutSrc.isProduct`: the result
+    of `get_matrix`, `make_image`, `print_ascii`, `print_tty`), the object right after that operation has `_version` `None` or an
+    integer in `1..40`, `_mask_pattern` `None` or an integer in `0..7`, `_border ≥ 0`, a filled `data_cache`,
+    `modules_count = 4 v + 17` for a real version `v`; and an image was requested from the image class with exactly
+    `(self.border, self.modules_count, self.box_size, qrcode_modules=self.modules)` where `box_size > 0`.
+    From `C18_source_capstone_never`.  Same hypotheses. -/
+theorem C18_source_capstone_never_attrs {F K : Type} (E : ImgEnv F K)
+    (hf : ∀ f, E.arg = some f → E.issub f = true) (fac : Option F) (ops : List Op) (g0 : Global) (hg : GInv g0)
+    (s0 : QRState) (hs : SettingsOK s0) (hc : CacheInv s0) (hk : EmbeddedOK E s0 ops) (k : Nat) (o : OutSrc F K)
+    (h : (runSrc E (g0, toOb fac s0) ops).2[k]? = some o) (ho : o.isProduct = true) :
+    (((runSrc E (g0, toOb fac s0) (ops.take (k + 1))).1.2._version = .none ∨
+        ∃ v : Nat, (runSrc E (g0, toOb fac s0) (ops.take (k + 1))).1.2._version = .int v ∧ 1 ≤ v ∧ v ≤ 40) ∧
+      ((runSrc E (g0, toOb fac s0) (ops.take (k + 1))).1.2._mask_pattern = .none ∨
+        ∃ m : Nat, (runSrc E (g0, toOb fac s0) (ops.take (k + 1))).1.2._mask_pattern = .int m ∧ m ≤ 7) ∧
+      0 ≤ (runSrc E (g0, toOb fac s0) (ops.take (k + 1))).1.2._border ∧
+      (runSrc E (g0, toOb fac s0) (ops.take (k + 1))).1.2.data_cache.isSome = true ∧
+      (∃ v, 1 ≤ v ∧ v ≤ 40 ∧ (runSrc E (g0, toOb fac s0) (ops.take (k + 1))).1.2.modules_count = v * 4 + 17) ∧
+      (∀ im evs, o = .image im evs →
+        0 < (runSrc E (g0, toOb fac s0) (ops.take (k + 1))).1.2.box_size ∧
+        im.pos = [(runSrc E (g0, toOb fac s0) (ops.take (k + 1))).1.2._border,
+          ((runSrc E (g0, toOb fac s0) (ops.take (k + 1))).1.2.modules_count : Int),
+          (runSrc E (g0, toOb fac s0) (ops.take (k + 1))).1.2.box_size] ∧
+        im.kw = [("qrcode_modules", (runSrc E (g0, toOb fac s0) (ops.take (k + 1))).1.2.modules)])) := by
+  obtain ⟨pre, post, _, hpost, hn⟩ := C18_source_capstone_never E hf fac ops g0 hg s0 hs hc hk k o h
+  rw [hpost]
+  have key : ∀ (_ : post.version ≤ 40 ∧ (∀ m, post.mask = some m → m ≤ 7) ∧ post.dataCache.isSome = true ∧
+      ∃ v, 1 ≤ v ∧ v ≤ 40 ∧ post.modulesCount = v * 4 + 17),
+      ((toOb fac post)._version = .none ∨ ∃ v : Nat, (toOb fac post)._version = .int v ∧ 1 ≤ v ∧ v ≤ 40) ∧
+      ((toOb fac post)._mask_pattern = .none ∨ ∃ m : Nat, (toOb fac post)._mask_pattern = .int m ∧ m ≤ 7) ∧
+      0 ≤ (toOb fac post)._border ∧ (toOb fac post).data_cache.isSome = true ∧
+      (∃ v, 1 ≤ v ∧ v ≤ 40 ∧ (toOb fac post).modules_count = v * 4 + 17) := by
+    intro ⟨p1, p2, p3, p4⟩
+    refine ⟨?_, ?_, ?_, p3, p4⟩
+    · by_cases hv0 : post.version = 0
+      · left; simp [toOb, hv0]
+      · right; exact ⟨post.version, by simp [toOb, hv0], by omega, p1⟩
+    · cases hm : post.mask with
+      | none => left; simp [toOb, hm]
+      | some m => right; exact ⟨m, by simp [toOb, hm], p2 m hm⟩
+    · simp [toOb]
+  cases o with
+  | unit => cases ho
+  | err e => cases ho
+  | matrix m =>
+    obtain ⟨k1, k2, k3, k4, k5⟩ := key hn.1
+    exact ⟨k1, k2, k3, k4, k5, fun _ _ he => by cases he⟩
+  | text b m =>
+    obtain ⟨k1, k2, k3, k4, k5⟩ := key hn.1
+    exact ⟨k1, k2, k3, k4, k5, fun _ _ he => by cases he⟩
+  | image im evs =>
+    obtain ⟨a1, _, a3, a4, a5, _⟩ := hn
+    obtain ⟨k1, k2, k3, k4, k5⟩ := key a1
+    refine ⟨k1, k2, k3, k4, k5, fun im' evs' he => ?_⟩
+    injection he with he1 he2
+    subst he1
+    exact ⟨a3, a4, a5⟩
+
+/-- **capstone, from the constructor on**: whenever the translated `main.py:QRCode.__init__` (`ob_init`; `util.check_version` =
+    `checkVersionOb`; integer / `None` arguments; `image_factory` `None` or a subclass of `BaseImage`) returns an object `o`, then
+    over every sequence of operations executed by the translated code on `o`, from the empty process cache, whatever is handed out
+    (`OutSrc.isProduct`) comes from an object with `version ≤ 40`, mask `None` or `≤ 7`, `modules_count = 4 v + 17` for a real version,
+    and an image is only ever requested from the image class with a third positional argument (`box_size`) `> 0`.
+    From `C18_source_construct_src`, `C18_constructed`, `C18_source_capstone_never`. -/
+theorem C18_source_capstone_never_constructed {F K : Type} (E : ImgEnv F K)
+    (hf : ∀ f, E.arg = some f → E.issub f = true) (fac : Option F) (hfac : ∀ f, fac = some f → E.issub f = true)
+    (self0 : ob_QR Seg (List Nat) F) (version : Option Int) (level : Nat) (box border : Int) (mask : Option Int)
+    (ob : ob_QR Seg (List Nat) F)
+    (hcon : ob_init checkVersionOb E.issub self0 (optVal version) (.int level) (.int box) (.int border) fac (optVal mask) = .ok ob)
+    (ops : List Op) (hk : E.embedded = false ∨ (level = 2 ∧ ∀ l, Op.setLevel l ∈ ops → l = 2))
+    (k : Nat) (o : OutSrc F K) (h : (runSrc E ({ blanks := [] }, ob) ops).2[k]? = some o)
+    (ho : o.isProduct = true) :
+    ∃ post : QRState, (runSrc E ({ blanks := [] }, ob) (ops.take (k + 1))).1.2 = toOb fac post ∧
+      post.version ≤ 40 ∧ (∀ m, post.mask = some m → m ≤ 7) ∧ (∃ v, 1 ≤ v ∧ v ≤ 40 ∧ post.modulesCount = v * 4 + 17) ∧
+      (∀ im evs, o = .image im evs → ∃ (b n : Int) (bs : Int), im.pos = [b, n, bs] ∧ 0 < bs) := by
+  rw [C18_source_construct_src E.issub fac hfac] at hcon
+  cases hc : construct version level box border mask with
+  | error e => rw [hc] at hcon; simp [liftR, Except.map] at hcon
+  | ok s0 =>
+    rw [hc] at hcon
+    simp only [liftR, Except.map, Except.ok.injEq] at hcon
+    subst hcon
+    have hempty : GInv { blanks := [] } := by intro v b hl; simp at hl
+    obtain ⟨c1, c2, _⟩ := C18_constructed version level box border mask s0 hc
+    obtain ⟨pre, post, _, hpost, hn⟩ := C18_source_capstone_never E hf fac ops _ hempty s0 c1 c2
+      (hk.imp id fun h => ⟨(construct_level hc).trans h.1, h.2⟩) k o h
+    refine ⟨post, hpost, ?_⟩
+    cases o with
+    | unit => cases ho
+    | err e => cases ho
+    | matrix m => exact ⟨hn.1.1, hn.1.2.1, hn.1.2.2.2, fun _ _ he => by cases he⟩
+    | text b m => exact ⟨hn.1.1, hn.1.2.1, hn.1.2.2.2, fun _ _ he => by cases he⟩
+    | image im evs =>
+      obtain ⟨a1, _, a3, a4, _⟩ := hn
+      refine ⟨a1.1, a1.2.1, a1.2.2.2, fun im' evs' he => ?_⟩
+      injection he with he1 he2
+      subst he1
+      exact ⟨_, _, _, a4, a3⟩
+
+/-- instance, evaluated through the translated code: on `QRCode()`, `version = 41`, `border = -1`, `mask_pattern = 8` are rejected
+    (ValueError, nothing stored), `box_size = 0` is stored unchecked but `make_image()` then refuses before any compile, and
+    `version = 40` is accepted; by `C18_source_capstone_run` the run ends on the object of a state with the settings in range -/
+example :
+    (runSrc exampleEnv ({ blanks := [] }, toOb none exampleState)
+      [.setVersion (some 41), .setBorder (-1), .setMask (some 8), .setBoxSize 0, .makeImage, .setVersion (some 40)]).2 =
+      [.err "ValueError", .err "ValueError", .err "ValueError", .unit, .err "ValueError", .unit] ∧
+    ∃ g s outs, runSrc exampleEnv ({ blanks := [] }, toOb none exampleState)
+      [.setVersion (some 41), .setBorder (-1), .setMask (some 8), .setBoxSize 0, .makeImage, .setVersion (some 40)] =
+        ((g, toOb none s), outs) ∧ SettingsOK s := by
+  refine ⟨rfl, ?_⟩
+  obtain ⟨g, s, outs, h1, _, h2, _⟩ := C18_source_capstone_run exampleEnv (by intro f h; cases h) (none : Option Unit)
+    [.setVersion (some 41), .setBorder (-1), .setMask (some 8), .setBoxSize 0, .makeImage, .setVersion (some 40)]
+    { blanks := [] } (by intro v b hl; simp at hl) exampleState (Or.inl rfl)
+  exact ⟨g, s, outs, h1, h2 ⟨by decide, by intro m hm; cases hm⟩⟩
+
+end CapstoneSeq
 end Capstone
 
 /-- the Python functions this property's model mirrors have, in /repo's current working tree, exactly the normalised
